@@ -199,6 +199,7 @@ CROSS_FUNS = {
     "N cmt": ("Holes.comment", "Model.Holes"),
     "UE pe": ("UrlEscape.path_escape", "Model.UrlEscape"),
     "UE qe": ("UrlEscape.query_escape", "Model.UrlEscape"),
+    "N jq": ("JsonString.quote", "Model.JsonString"),
     "C13 enc": ("(fun s => match GoLit.go_eval (GoLit.encode s) with Some v => v | None => [] end)", "Model.GoLit"),
 }
 
@@ -1283,6 +1284,17 @@ def check_json_family(run, prop, replay=None):
             "(strings, numbers, booleans, RawMessage, time via layout) as oracles; numbers are compared numerically, objects up to key order",
             "the reflective value builder/dumper of the driver and the OCaml JSON reader/printer in driver.ml"],
     })
+    # encoding/json on string texts against its transcription (Model/JsonString.v): N jq / N ju lines
+    nidx = [i for i, c in enumerate(cases) if c.startswith("N j")]
+    nbadn = [i for i in nidx if parse_kv(impl[i]).get("impl") != parse_kv(model[i]).get("model")]
+    run.coverage["json_string_cases"] = len(nidx)
+    run.coverage["json_string_mismatches"] = len(nbadn)
+    if nbadn and prop == "C06":
+        i = nbadn[0]
+        run.violation({"property": run.prop, "case": cases[i], "impl": impl[i], "model": model[i], "input": None,
+                       "broken": "correspondence: encoding/json's string text differs from its transcription Model/JsonString.v "
+                                 "(C06_string_text_roundtrip is about the latter)", "mismatching_cases": len(nbadn)},
+                      cases[i], note="no-failing-input-found")
     run.log("cases: %d evaluated; correspondence mismatches %d; property mismatches %d" % (n_eval, len(corr), len(propm)))
     if not proof_ok:
         run.proof_failed()
